@@ -115,6 +115,30 @@ template <class A> static Verdict check_type(const Fields &f, bool *nontrivial, 
       if (pieces >= 3 && c > 0) *nontrivial = true;
     }
   }
+  // one arena: the destination begins exactly where the (unterminated) text the URI was parsed from ends
+  if (src == 0 && !f.geti("owned")) {
+    std::basic_string<Ch> tx = widen<Ch>(f.get("text"));
+    for (int c : {N + 1, N, N / 2, 1}) {
+      size_t cap = c > 0 ? (size_t)c : 0, tl = tx.size();
+      if ((tl + cap) * sizeof(Ch) > gb().capacity()) continue;
+      Ch *base = gb().right_chars<Ch>(tl + cap), *dest = base + tl;
+      if (tl) memcpy(base, tx.data(), tl * sizeof(Ch));
+      for (size_t i = 0; i < cap; i++) dest[i] = (Ch)0xAA;
+      typename A::Uri v;
+      const Ch *ep = nullptr;
+      if (A::ParseSingleUriEx(&v, base, base + tl, &ep) != 0) { A::FreeUriMembers(&v); break; }
+      int cw = -7;
+      int rc = A::ToString(dest, &v, c, &cw);
+      stats().sub_evaluations++;
+      bool inputKept = tl == 0 || memcmp(base, tx.data(), tl * sizeof(Ch)) == 0;
+      bool textOk = c >= N + 1 && rc == 0 && memcmp(dest, ample.data(), ((size_t)N + 1) * sizeof(Ch)) == 0;
+      A::FreeUriMembers(&v);
+      VF_REQUIRE(inputKept, "%s: destination directly behind the parsed text, capacity %d: the text was modified", A::name(), c);
+      if (c >= N + 1) VF_REQUIRE(textOk && cw == N + 1, "%s: destination directly behind the parsed text, capacity %d >= N+1=%d: rc=%d charsWritten=%d or wrong text", A::name(), c, N + 1, rc, cw);
+      else VF_REQUIRE(rc == URI_ERROR_TOSTRING_TOO_LONG && cw == 0 && (c < 1 || dest[0] == 0), "%s: destination directly behind the parsed text, capacity %d < N+1=%d: rc=%d charsWritten=%d", A::name(), c, N + 1, rc, cw);
+    }
+    stats().hit("destination_directly_behind_the_text");
+  }
   *key = f.text();
   return Verdict::pass();
 }
